@@ -54,6 +54,7 @@ BENIGN = {
     "core::iter::traits::iterator::Iterator::nth": "doc mentions overflow only for iterators longer than usize::MAX",
     "core::iter::traits::iterator::Iterator::enumerate": "index overflow needs more than usize::MAX elements",
     "core::iter::traits::iterator::Iterator::count": "overflow needs more than usize::MAX elements",
+    "core::iter::traits::iterator::Iterator::position": "index overflow needs more than usize::MAX elements",
     "core::iter::traits::iterator::Iterator::rev": "no panic of its own",
     "core::iter::traits::iterator::Iterator::max": "no panic of its own",
     "core::str::<impl str>::parse": "returns Err on bad input",
